@@ -42,7 +42,7 @@ Section Ops.
     specialize (IH tl s2). destruct (gs_Mplus f ds uf tl s2); cbn; [discriminate|discriminate|contradiction].
   Qed.
 
-  Lemma gs_Bind_sound : forall f s g r, gs_Bind f ds uf s g = Ret r -> r = bindk (fst g) (snd g) s.
+  Lemma gs_Bind_sound : forall f s g r, gs_Bind f ds uf s g = Ret r -> r = bindk (sg_run g) (sg_bind g) s.
   Proof.
     induction f as [|f IH]; intros s g r H; [discriminate|].
     destruct s as [|a tl|th|]; cbn in H.
@@ -54,9 +54,9 @@ Section Ops.
   Qed.
 
   Lemma gs_Bind_complete : forall B f s g, ends_err s = false ->
-    (forall a, In a (heads s) -> ends_err (fst g a) = false /\ (spine (fst g a) < B)%nat) ->
+    (forall a, In a (heads s) -> ends_err (sg_run g a) = false /\ (spine (sg_run g a) < B)%nat) ->
     (spine s + B < f)%nat ->
-    gs_Bind f ds uf s g = Ret (bindk (fst g) (snd g) s).
+    gs_Bind f ds uf s g = Ret (bindk (sg_run g) (sg_bind g) s).
   Proof.
     intros B. induction f as [|f IH]; intros s g He Hk Hf; [lia|].
     destruct s as [|a tl|th|]; cbn in *; try reflexivity; try discriminate.
@@ -74,9 +74,13 @@ Section Ops.
   (* an immature first argument is not run: the result is a suspension over its thunk, whatever that thunk would do *)
   Lemma gs_Mplus_lazy : forall f th s2, gs_Mplus (S f) ds uf (SSusp th) s2 = Ret (SSusp (TMplus s2 th)).
   Proof. reflexivity. Qed.
-  Lemma gs_Bind_lazy : forall f th g, gs_Bind (S f) ds uf (SSusp th) g = Ret (SSusp (snd g th)).
+  Lemma gs_Bind_lazy : forall f th g, gs_Bind (S f) ds uf (SSusp th) g = Ret (SSusp (sg_bind g th)).
   Proof. reflexivity. Qed.
 End Ops.
+
+(* a goal of the model (a term of Goal.v under an environment), as the stream operators see it *)
+Definition model_goal (ds : defs) (uf : term -> term -> subst -> nat) (g : goal) (e : env) : sgoal :=
+  mkSGoal (fun a => eval ds uf g e a) (fun th => TBind th g e) (fun st => TGoal g e st).
 
 (* Disj (micro/disj.go) and Conj (micro/conj.go): the goal constructors, as functions of their two goals and the state *)
 Section Ctors.
@@ -84,19 +88,19 @@ Section Ctors.
   Variable uf : term -> term -> subst -> nat.
 
   Lemma gs_Disj_sound : forall f g1 g2 st r,
-    gs_Disj f ds uf g1 g2 (Some st) = Ret r -> r = mplus (fst g1 st) (fst g2 st).
+    gs_Disj f ds uf g1 g2 (Some st) = Ret r -> r = mplus (sg_run g1 st) (sg_run g2 st).
   Proof. intros f g1 g2 st r H. unfold gs_Disj in H. cbn in H. apply (gs_Mplus_sound ds uf) in H. exact H. Qed.
-  Lemma gs_Disj_complete : forall f g1 g2 st, ends_err (fst g1 st) = false -> (spine (fst g1 st) < f)%nat ->
-    gs_Disj f ds uf g1 g2 (Some st) = Ret (mplus (fst g1 st) (fst g2 st)).
+  Lemma gs_Disj_complete : forall f g1 g2 st, ends_err (sg_run g1 st) = false -> (spine (sg_run g1 st) < f)%nat ->
+    gs_Disj f ds uf g1 g2 (Some st) = Ret (mplus (sg_run g1 st) (sg_run g2 st)).
   Proof. intros f g1 g2 st He Hf. unfold gs_Disj. cbn. apply gs_Mplus_complete; assumption. Qed.
 
   Lemma gs_Conj_sound : forall f g1 g2 st r,
-    gs_Conj f ds uf g1 g2 (Some st) = Ret r -> r = bindk (fst g2) (snd g2) (fst g1 st).
+    gs_Conj f ds uf g1 g2 (Some st) = Ret r -> r = bindk (sg_run g2) (sg_bind g2) (sg_run g1 st).
   Proof. intros f g1 g2 st r H. unfold gs_Conj in H. cbn in H. apply (gs_Bind_sound ds uf) in H. exact H. Qed.
-  Lemma gs_Conj_complete : forall B f g1 g2 st, ends_err (fst g1 st) = false ->
-    (forall a, In a (heads (fst g1 st)) -> ends_err (fst g2 a) = false /\ (spine (fst g2 a) < B)%nat) ->
-    (spine (fst g1 st) + B < f)%nat ->
-    gs_Conj f ds uf g1 g2 (Some st) = Ret (bindk (fst g2) (snd g2) (fst g1 st)).
+  Lemma gs_Conj_complete : forall B f g1 g2 st, ends_err (sg_run g1 st) = false ->
+    (forall a, In a (heads (sg_run g1 st)) -> ends_err (sg_run g2 a) = false /\ (spine (sg_run g2 a) < B)%nat) ->
+    (spine (sg_run g1 st) + B < f)%nat ->
+    gs_Conj f ds uf g1 g2 (Some st) = Ret (bindk (sg_run g2) (sg_bind g2) (sg_run g1 st)).
   Proof. intros B f g1 g2 st He Hk Hf. unfold gs_Conj. cbn. apply (gs_Bind_complete ds uf B); assumption. Qed.
 
   Lemma gs_ctors_never_panic : forall f g1 g2 st,
@@ -105,11 +109,21 @@ Section Ctors.
 
   (* in the model's own terms: the streams of GDisj / GConj *)
   Lemma gs_Disj_is_eval : forall f g1 g2 e st r,
-    gs_Disj f ds uf (fun a => eval ds uf g1 e a, fun th => th) (fun a => eval ds uf g2 e a, fun th => th) (Some st) = Ret r ->
+    gs_Disj f ds uf (model_goal ds uf g1 e) (model_goal ds uf g2 e) (Some st) = Ret r ->
     r = eval ds uf (GDisj g1 g2) e st.
   Proof. intros f g1 g2 e st r H. apply gs_Disj_sound in H. exact H. Qed.
   Lemma gs_Conj_is_eval : forall f g1 g2 e st r,
-    gs_Conj f ds uf (fun a => eval ds uf g1 e a, fun th => th) (fun a => eval ds uf g2 e a, fun th => TBind th g2 e) (Some st) = Ret r ->
+    gs_Conj f ds uf (model_goal ds uf g1 e) (model_goal ds uf g2 e) (Some st) = Ret r ->
     r = eval ds uf (GConj g1 g2) e st.
   Proof. intros f g1 g2 e st r H. apply gs_Conj_sound in H. exact H. Qed.
+
+  (* Zzz (micro/stream.go) and CallFresh (micro/fresh.go) *)
+  Lemma gs_Zzz_is_eval : forall g e st, gs_Zzz ds uf (model_goal ds uf g e) (Some st) = Ret (eval ds uf (GZzz g) e st).
+  Proof. reflexivity. Qed.
+  Lemma gs_CallFresh_is_eval : forall g e st,
+    gs_CallFresh ds uf (fun v => model_goal ds uf g (v :: e)) (Some st) = Ret (eval ds uf (GFresh g) e st).
+  Proof. intros g e st. unfold gs_CallFresh. cbn. destruct st; reflexivity. Qed.
+  Lemma gs_CallFresh_spec : forall (fg : term -> sgoal) st,
+    gs_CallFresh ds uf fg (Some st) = Ret (sg_run (fg (TVar (ctr st))) (mkSt (sub st) (ctr st + 1))).
+  Proof. reflexivity. Qed.
 End Ctors.
